@@ -277,6 +277,7 @@ class FlowTestSettingUnit(E2Contract):
                 pm = None if jobs is None else dict(per_sample_unit=jobs, per_data_generation=jobs, per_estimator_unit=jobs, per_estimator_execution=jobs)
                 res = flow.execute_simulation_test_setting_unit(ts, 0, "/nonexistent/qverif", exec_sim_check=dict(NO_CHECKS), pdf_mode="none", parallel_mode=pm,
                                                                  is_computation_time_required=False)
+                self._ts = ts
                 return res, list(symrandom.DRAW_LOG)
             try:
                 res, log = once("forward", None)
@@ -287,6 +288,8 @@ class FlowTestSettingUnit(E2Contract):
             data = lambda rs: [[[d for _, d in _pairs(seq)] for seq in r.empi_dists_sequences] for r in rs]
             ests = lambda rs: [[e.estimated_var_sequence for e in r.estimation_results] for r in rs]
             tags = [[symrandom.draw_tags(rep) for rep in r] for r in data(res)]
+            sim_mod = W.mod(SIM)
+            out["re-estimates"] = [[e.estimated_var_sequence for e in sim_mod.re_estimate_sequence(self._ts, r)] for r in res]
             out["n_results"] = len(res)
             out["reps"] = [len(r.empi_dists_sequences) for r in res]
             out["disjoint"] = all(not (t[i] & t[j]) for t in tags for i in range(len(t)) for j in range(i + 1, len(t)))
@@ -321,6 +324,9 @@ class FlowTestSettingUnit(E2Contract):
         data = lambda rs: [_plain(r.empi_dists_sequences) for r in rs]
         ests = lambda rs: [[e.estimated_var_sequence for e in r.estimation_results] for r in rs]
         d1 = data(res)
+        ts_native = _test_setting(W, n_rep, n_sample, [1000, 4000])
+        with contextlib.redirect_stdout(io.StringIO()), contextlib.redirect_stderr(io.StringIO()):
+            out["re-estimates"] = [[e.estimated_var_sequence for e in W.mod(SIM).re_estimate_sequence(ts_native, r)] for r in res]
         out["n_results"] = len(res)
         out["reps"] = [len(r.empi_dists_sequences) for r in res]
         out["disjoint"] = all(r[i] != r[j] for r in d1 for i in range(len(r)) for j in range(i + 1, len(r)))
@@ -356,7 +362,9 @@ class FlowTestSettingUnit(E2Contract):
                    "reversed / rotated task execution order and other n_jobs settings give the same empirical distributions"),
                 eq("estimates-independent-of-schedule-and-worker-count", out["estimates-other-schedules"], [out["estimates"], out["estimates"]],
                    "... and the same estimates"),
-                eq("objects-independent-of-schedule-and-worker-count", out["truth-other-schedules"], [out["truth"], out["truth"]], "... and the same generated true objects")]
+                eq("objects-independent-of-schedule-and-worker-count", out["truth-other-schedules"], [out["truth"], out["truth"]], "... and the same generated true objects"),
+                eq("re-estimation-reproduces-the-stored-estimates", out["re-estimates"], out["estimates"],
+                   "re_estimate_sequence(test setting, stored result) gives the stored estimates for every sample and every case (its own parametrisation)")]
 
 
 # ------------------------------------------------------------------ random effective-Lindbladian noise: where the draws come from
@@ -504,3 +512,111 @@ class FlowRandomNoiseStreams(FlowTestSettingUnit):
                    "every generation draw comes from a child of SeedSequence(seed_qoperation): true object AND testers are functions of the seed"),
                 eq("each-sample-has-its-own-stream", out["per-sample"], True, "sample i draws from the i-th child"),
                 eq("global-random-state-untouched", out["no-global"], True, "no draw comes from the global numpy state")]
+
+
+# ------------------------------------------------------------------ the run's built-in physicality check
+
+CHK = "quara.simulation.standard_qtomography_simulation_check"
+PVC = "quara.data_analysis.physicality_violation_check"
+
+
+class PhysicalityCheckOfARun(E2Contract):
+    """execute_physicality_violation_check() is False exactly when some stored estimate violates, beyond the documented thresholds, a constraint its
+    estimator was configured to enforce.  The verdicts of the single estimates are the objects' own (C01); what is proved is the selection and the
+    conjunction: which constraint is looked at for which estimator configuration, at which threshold, over which estimates."""
+    name = "built-in physicality check of a run"
+    prop = "C15"
+    targets = (CHK + ":StandardQTomographySimulationCheck.execute_physicality_violation_check", PVC + ":is_physical_qobjects_all",
+               PVC + ":is_eq_constraint_satisfied_all", PVC + ":is_ineq_constraint_satisfied_all", PVC + ":calc_unphysical_qobjects_n",
+               PVC + ":get_eq_const_eps", PVC + ":get_ineq_const_eps")
+    frame = False
+    n_conformance = 1
+    max_paths = 256
+
+    def configs(self, tier):
+        out = [("projected-linear", True, None), ("projected-linear", False, None), ("linear", True, None), ("linear", False, None)]
+        for eqf in (True, False):
+            for ineqf in (True, False):
+                out.append(("loss-minimisation", True, (eqf, ineqf)))
+        out.append(("loss-minimisation", False, (True, False)))
+        out.append(("loss-minimisation", True, "no-option"))
+        return out
+
+    def inputs(self, W, cfg, mk):
+        est, para, flags = cfg
+        nv = 3 if para else 4
+        # stored estimates (1-qubit states), all symbolic: two repetitions x two sample sizes where only equality verdicts are involved,
+        # two repetitions x one sample size where positivity verdicts (two opaque eigenvalues each) are involved (path budget)
+        heavy = est == "projected-linear" or (est == "loss-minimisation" and flags != "no-option" and flags[1])
+        nk = 1 if heavy else 2
+        vs = [[mk.array(f"v{r}{k}_", nv) for k in range(nk)] for r in range(2)]
+        return dict(vs=vs, nk=nk)
+
+    def sample(self, cfg, names, rng):
+        import math
+        est, para, flags = cfg
+        vals = {}
+        # estimates around the boundary of the physical set, some slightly outside, so that both verdicts occur
+        for n in names:
+            vals[n] = rng.choice([0.0, 0.3, 0.70710678, 0.7071, 0.72, -0.5])
+        if not para:
+            for n in names:
+                if n.endswith("_0"):
+                    vals[n] = rng.choice([1 / math.sqrt(2), 1 / math.sqrt(2) + 1e-7, 0.70715])
+        return vals
+
+    def run(self, W, cfg, inp):
+        est, para, flags = cfg
+        std = "quara.protocol.qtomography.standard."
+        c_sys = make_csys(W, "1q")
+        tmpl = W.mod("quara.objects.state").State(c_sys, W.np.array([1, 0, 0, 0], dtype=W.np.float64) / W.np.sqrt(2), is_physicality_required=False,
+                                                  on_para_eq_constraint=para)
+        sim = W.mod(SIM)
+        if est == "projected-linear":
+            estimator = W.mod(std + "projected_linear_estimator").ProjectedLinearEstimator()
+            rcls = W.mod(std + "projected_linear_estimator").ProjectedLinearEstimationResult
+        elif est == "linear":
+            estimator = W.mod(std + "linear_estimator").LinearEstimator()
+            rcls = W.mod(std + "linear_estimator").LinearEstimationResult
+        else:
+            estimator = W.mod(std + "loss_minimization_estimator").LossMinimizationEstimator()
+            rcls = W.mod(std + "loss_minimization_estimator").LossMinimizationEstimationResult
+        algo_option = None
+        if est == "loss-minimisation" and flags != "no-option":
+            pg = W.mod("quara.minimization_algorithm.projected_gradient_descent_backtracking")
+            algo_option = pg.ProjectedGradientDescentBacktrackingOption(on_algo_eq_constraint=flags[0], on_algo_ineq_constraint=flags[1])
+        results = [rcls(list(inp["vs"][r]), None, tmpl) for r in range(2)]
+        setting = sim.StandardQTomographySimulationSetting(name="case", true_object=tmpl, tester_objects=[], estimator=estimator, seed_data=1, n_rep=2,
+                                                           num_data=[10, 100][: inp["nk"]], schedules="all", eps_proj_physical=1e-13,
+                                                           eps_truncate_imaginary_part=1e-13, algo_option=algo_option)
+        sr = sim.SimulationResult(estimation_results=results, empi_dists_sequences=[], qtomography=None)
+        sr.simulation_setting = setting
+        chk = W.mod(CHK).StandardQTomographySimulationCheck(sr)
+        verdict = chk.execute_physicality_violation_check(show_detail=False)
+        # the reference: the objects' own verdicts at the documented thresholds, for the constraints this configuration enforces
+        pvc = W.mod(PVC)
+        eps_eq, eps_ineq = pvc.get_eq_const_eps(para), pvc.get_ineq_const_eps()
+        objs = [tmpl.generate_from_var(W.np.copy(v)) for r in range(2) for v in inp["vs"][r]]
+        if est == "projected-linear":
+            need_eq, need_ineq = True, True
+        elif est == "linear":
+            need_eq, need_ineq = para, False
+        elif flags == "no-option":
+            need_eq, need_ineq = False, False
+        else:
+            need_eq, need_ineq = flags
+        ok = True
+        for o in objs:
+            if need_eq:
+                ok = ok and bool(o.is_eq_constraint_satisfied(eps_eq))
+            if need_ineq:
+                ok = ok and bool(o.is_ineq_constraint_satisfied(eps_ineq))
+        return dict(verdict=bool(verdict), want=ok, thresholds=[eps_eq, eps_ineq])
+
+    def post(self, W, cfg, inp, out):
+        est, para, flags = cfg
+        atol = W.mod("quara.settings").Settings.get_atol()
+        return [eq("check-fails-iff-a-configured-constraint-is-violated", out["verdict"], out["want"],
+                   "the check returns False exactly when some stored estimate (any repetition, any sample size) violates a constraint this estimator configuration enforces"),
+                eq("documented-thresholds", out["thresholds"], [atol if para else 1e-5, 1e-5],
+                   "equality threshold: the global atol with the constraint built in, 1e-5 otherwise; inequality threshold 1e-5")]
